@@ -64,7 +64,9 @@ def boundary_cases():
         out.append(({'type': 'fixed', 'name': 'D%d' % size, 'size': size, 'logicalType': 'decimal', 'precision': prec, 'scale': prec // 2},
                     [{'dec': n.to_bytes(size, 'big', signed=True).hex()} for n in vals]))
     out.append(({'type': 'bytes', 'logicalType': 'big-decimal'},
-                [{'bigdec': [str(n), s]} for n in (0, 1, -1, 127, 128, -128, -129, 10 ** 40, -10 ** 40) for s in (0, 2, 20, -2)]))
+                [{'bigdec': [str(n), s]} for n in (0, 1, -1, 127, 128, -128, -129, 10 ** 40, -10 ** 40) for s in (0, 2, 20, -2)] +
+                # the scale is a long: every varint length boundary of it, beyond the i32 range too
+                [{'bigdec': ['1421', s]} for s in (63, 64, -64, -65, 8191, 8192, 2 ** 31 - 1, 2 ** 31, -2 ** 31, -2 ** 31 - 1, 2 ** 62, 2 ** 63 - 1, -2 ** 63)]))
     uu = ['00' * 16, 'ff' * 16, '0123456789abcdef0123456789abcdef', 'a1b2c3d4e5f60718293a4b5c6d7e8f90']
     out.append(({'type': 'string', 'logicalType': 'uuid'}, [{'uuid': u} for u in uu]))
     out.append(({'type': 'bytes', 'logicalType': 'uuid'}, [{'uuid': u} for u in uu]))
